@@ -14,6 +14,8 @@ import (
 	"context"
 	"encoding/base64"
 	"encoding/xml"
+	"errors"
+	"strconv"
 	"sync"
 
 	"mellium.im/xmlstream"
@@ -93,7 +95,7 @@ func (h *Handler) HandleMessage(msg stanza.Message, t xmlstream.TokenReadEncoder
 	p := dataMessage{}
 	err := d.Decode(&p)
 	if err != nil {
-		return err
+		return refuseMalformed(err, msg, t)
 	}
 	return handlePayload(h, msg, msg.From, p.Data, t)
 }
@@ -106,7 +108,7 @@ func (h *Handler) HandleIQ(iq stanza.IQ, t xmlstream.TokenReadEncoder, start *xm
 		p := openPayload{}
 		err := d.Decode(&p)
 		if err != nil {
-			return err
+			return refuseMalformed(err, iq, t)
 		}
 		return handleOpen(h, openIQ{
 			IQ:   iq,
@@ -144,7 +146,7 @@ func (h *Handler) HandleIQ(iq stanza.IQ, t xmlstream.TokenReadEncoder, start *xm
 		p := dataPayload{}
 		err := d.Decode(&p)
 		if err != nil {
-			return err
+			return refuseMalformed(err, iq, t)
 		}
 		return handlePayload(h, iq, iq.From, p, t)
 	}
@@ -191,6 +193,23 @@ func handleOpen(h *Handler, iq openIQ, e xmlstream.Encoder) error {
 	}
 	l.c <- conn
 	return nil
+}
+
+// refuseMalformed answers a packet whose attributes do not fit their types (a
+// seq that is not a 16 bit number, for instance) with bad-request. That is the
+// sender's mistake: it must not end the whole XMPP session, which returning
+// the decoding error from the handler would do. Other errors (the XML itself
+// is broken) are returned.
+func refuseMalformed(err error, errResp errorResponder, e xmlstream.Encoder) error {
+	var numErr *strconv.NumError
+	if !errors.As(err, &numErr) {
+		return err
+	}
+	_, err = xmlstream.Copy(e, errResp.Error(stanza.Error{
+		Type:      stanza.Modify,
+		Condition: stanza.BadRequest,
+	}))
+	return err
 }
 
 type errorResponder interface {
